@@ -231,6 +231,26 @@ class ConnAdapter:
             if co.crash is not None:
                 raise co.crash
 
+    def quiesce(self):
+        """after a divergence: a receive call that is still inside read() is given what the wire
+        holds (as much as it asks for), or end of file if the peer has closed, until it returns --
+        so that the monitor sees the outcome of a call the specification had expected to be over"""
+        for _ in range(64):
+            if not self.rcall or self.rpend[0] != 'read' or self.receiver.finished:
+                return
+            k = min(self.rpend[1], len(self.wire))
+            if k > 0:
+                act = {'name': 'KRead', 'n': k}
+                self.rpend = self.receiver.resume(('data', k))
+            elif self.sclosed:
+                act = {'name': 'KReadEOF'}
+                self.rpend = self.receiver.resume(('eof',))
+            else:
+                return
+            if self.receiver.crash is not None:
+                raise self.receiver.crash
+            yield act, self.project()
+
     def _send_invalid(self, why):
         self.io_by_driver = False
         data = b'0123456789'
